@@ -109,9 +109,9 @@ def canon_str(c):
 
 def classify(op, kind, A, B, what):
     """signature: property / container / operation / kind / predicate class"""
-    sis = list(A[2].values()) if A[0] == "v" else (A[2] if A[0] == "d" else [A[1]])
+    sis = list(A[2].values()) if A[0] == "v" else (list(A[2]) if A[0] == "d" else [A[1]])
     if B is not None:
-        sis += list(B[2].values()) if B[0] == "v" else (B[2] if B[0] == "d" else [B[1]])
+        sis = sis + (list(B[2].values()) if B[0] == "v" else (list(B[2]) if B[0] == "d" else [B[1]]))
     cont = "valueset" if A[0] == "v" else "dsis"
     head = "C23/%s/%s/%s/" % (cont, op, kind)
     if op == "widen":
